@@ -1,7 +1,786 @@
-//! C03 — not built yet.
+//! C03 — linting and fixing never crash, whatever the input.
+//!
+//! Two parts:
+//!  * the crash search (direct observation, decides most of C03): every item
+//!    `(dialect, rule selection, lint|fix, text)` is run in a *child process* of this
+//!    binary (`sqv c03 --worker`) under `catch_unwind`; the parent watches each child
+//!    with a timeout, so panics, aborts (signals, stack overflow, double panics) and
+//!    non-termination are all observations, keyed by panic site / signal / "timeout";
+//!  * the correspondence of the Gallina crash-envelope kernels (Crash/Model.v): the
+//!    `fix_slices` / `has_template_conflicts` arithmetic on recorded `LintFix` shapes, and
+//!    the fix-loop driver on recorded pass traces (see `kernel_cases`).
+use std::io::{BufRead, BufReader, Write};
+use std::process::{Child, ChildStdin, Command, Stdio};
+use std::sync::Mutex;
+use std::sync::atomic::{AtomicUsize, Ordering};
+use std::sync::mpsc::{Receiver, RecvTimeoutError, channel};
+use std::time::{Duration, Instant};
+
+use serde_json::{Value, json};
+use sqruff_lib::core::config::FluffConfig;
+use sqruff_lib::core::linter::core::Linter;
+use sqruff_lib_core::parser::lexer::StringOrTemplate;
+use sqruff_lib_core::parser::segments::base::Tables;
+
 use crate::common::*;
 
-pub fn main(_args: &Args) {
-    eprintln!("c03: not built yet");
-    std::process::exit(2);
+#[path = "c03k.rs"]
+mod c03k;
+
+pub const SELECTIONS: [&str; 9] =
+    ["core", "all", "aliasing", "ambiguous", "capitalisation", "convention", "layout", "references", "structure"];
+
+pub fn mk_linter(dialect: &str, rules: &str) -> Linter {
+    let src = format!("[sqruff]\ndialect = {}\nrules = {}\n", dialect, rules);
+    Linter::new(FluffConfig::from_source(&src, None), None, None, true)
+}
+
+#[derive(Clone)]
+pub struct Item {
+    pub cls: &'static str,
+    pub dialect: String,
+    pub rules: String,
+    pub fix: bool,
+    pub sql: String,
+    pub origin: String,
+}
+impl Item {
+    fn input(&self) -> Value {
+        json!({"dialect":self.dialect,"rules":self.rules,"fix":self.fix,"sql":self.sql,"origin":self.origin})
+    }
+}
+
+// ---------------------------------------------------------------- worker (child process)
+static LAST_PANIC: Mutex<Option<(String, String)>> = Mutex::new(None);
+static N_PANICS: AtomicUsize = AtomicUsize::new(0);
+
+fn install_hook() {
+    std::panic::set_hook(Box::new(|info| {
+        let loc = info.location().map(|l| format!("{}:{}", l.file(), l.line())).unwrap_or_else(|| "?".into());
+        let msg = if let Some(s) = info.payload().downcast_ref::<&str>() {
+            s.to_string()
+        } else if let Some(s) = info.payload().downcast_ref::<String>() {
+            s.clone()
+        } else {
+            "panic".to_string()
+        };
+        N_PANICS.fetch_add(1, Ordering::SeqCst);
+        if let Ok(mut g) = LAST_PANIC.lock() {
+            *g = Some((loc, msg));
+        }
+    }));
+}
+
+/// Path of a panic location relative to the repository (stable across worktrees).
+fn rel_loc(loc: &str) -> String {
+    match loc.find("crates/") {
+        Some(i) => loc[i..].to_string(),
+        None => match loc.rfind("/src/") {
+            // dependency or std: keep crate dir + file
+            Some(i) => {
+                let head = &loc[..i];
+                let k = head.rfind('/').map(|k| k + 1).unwrap_or(0);
+                loc[k..].to_string()
+            }
+            None => loc.to_string(),
+        },
+    }
+}
+
+/// The failure class of a panic: site (file:line) — except for the grammar's dangling
+/// references, which belong to C14 and are keyed
+/// `c14-dangling-ref:<dialect>:<name>`.
+fn panic_key(dialect: &str, loc: &str, msg: &str) -> String {
+    if let Some(rest) = msg.strip_prefix("Grammar refers to ") {
+        // "the 'X' keyword which ..." or "'X' which ..."
+        let name: String = rest.trim_start_matches("the ").trim_start_matches('\'').chars().take_while(|c| *c != '\'').collect();
+        return format!("c14-dangling-ref:{}:{}", dialect, name);
+    }
+    format!("panic@{}", rel_loc(loc))
+}
+
+fn run_item(linters: &mut std::collections::HashMap<(String, String), Linter>, v: &Value) -> Value {
+    let dialect = v["dialect"].as_str().unwrap_or("ansi").to_string();
+    let rules = v["rules"].as_str().unwrap_or("all").to_string();
+    let fix = v["fix"].as_bool().unwrap_or(false);
+    let sql = v["sql"].as_str().unwrap_or("");
+    let before = N_PANICS.load(Ordering::SeqCst);
+    let t0 = Instant::now();
+    let key = (dialect.clone(), rules.clone());
+    if !linters.contains_key(&key) {
+        match catch(|| mk_linter(&dialect, &rules)) {
+            Ok(l) => {
+                linters.insert(key.clone(), l);
+            }
+            Err(m) => {
+                let (loc, msg) = LAST_PANIC.lock().unwrap().clone().unwrap_or(("?".into(), m));
+                return json!({"r":"panic","stage":"config","key":panic_key(&dialect,&loc,&msg),"loc":rel_loc(&loc),"msg":trunc(&msg,200)});
+            }
+        }
+    }
+    let linter = &linters[&key];
+    let r = catch(|| {
+        let lf = linter.lint_string(sql, None, fix);
+        let nv = lf.violations.len();
+        let unexp = lf.violations.iter().filter(|v| v.description.starts_with("Unexpected exception")).count();
+        let unparsable = lf.violations.iter().filter(|v| v.rule.is_none()).count();
+        let fixed = if fix { Some(lf.fix_string()) } else { None };
+        (nv, unexp, unparsable, fixed)
+    });
+    let caught = N_PANICS.load(Ordering::SeqCst) - before;
+    let ms = t0.elapsed().as_millis() as u64;
+    match r {
+        Ok((nv, unexp, unparsable, fixed)) => {
+            json!({"r":"ok","nv":nv,"unexp":unexp,"parse_errs":unparsable,"caught":caught,"ms":ms,
+                   "changed":fixed.as_ref().map(|f| f != sql).unwrap_or(false)})
+        }
+        Err(m) => {
+            let (loc, msg) = LAST_PANIC.lock().unwrap().clone().unwrap_or(("?".into(), m));
+            json!({"r":"panic","stage":"lint","key":panic_key(&dialect,&loc,&msg),"loc":rel_loc(&loc),"msg":trunc(&msg,200),"caught":caught.saturating_sub(1),"ms":ms})
+        }
+    }
+}
+
+fn proc_status_mb(field: &str) -> u64 {
+    std::fs::read_to_string("/proc/self/status")
+        .ok()
+        .and_then(|s| s.lines().find(|l| l.starts_with(field)).and_then(|l| l.split_whitespace().nth(1).and_then(|x| x.parse::<u64>().ok())))
+        .map(|kb| kb / 1024)
+        .unwrap_or(0)
+}
+
+fn worker_main() {
+    install_hook();
+    let stdin = std::io::stdin();
+    let stdout = std::io::stdout();
+    let mut linters = std::collections::HashMap::new();
+    for line in stdin.lock().lines() {
+        let Ok(line) = line else { break };
+        if line.trim().is_empty() {
+            continue;
+        }
+        let v: Value = serde_json::from_str(&line).unwrap_or(Value::Null);
+        let mut res = run_item(&mut linters, &v);
+        res["rss_mb"] = json!(proc_status_mb("VmRSS:"));
+        res["hwm_mb"] = json!(proc_status_mb("VmHWM:"));
+        let mut o = stdout.lock();
+        let _ = writeln!(o, "{}", res);
+        let _ = o.flush();
+    }
+}
+
+// ---------------------------------------------------------------- parent: child management
+struct Worker {
+    child: Child,
+    stdin: ChildStdin,
+    rx: Receiver<String>,
+}
+impl Drop for Worker {
+    fn drop(&mut self) {
+        let _ = self.child.kill();
+        let _ = self.child.wait();
+    }
+}
+
+/// Memory-hungry items (deep nesting: measured 11 GB for 64 nested subqueries in fix mode, 2.4 GB
+/// for 64 nested CASEs; large files) share `HEAVY_MAX` slots so that the check does not exhaust
+/// the machine: weight 4 = runs alone among the heavy ones.
+static HEAVY: Mutex<usize> = Mutex::new(0);
+const HEAVY_MAX: usize = 4;
+struct HeavyGuard(usize);
+impl HeavyGuard {
+    fn acquire(weight: usize) -> HeavyGuard {
+        loop {
+            {
+                let mut g = HEAVY.lock().unwrap();
+                if *g + weight <= HEAVY_MAX {
+                    *g += weight;
+                    return HeavyGuard(weight);
+                }
+            }
+            std::thread::sleep(Duration::from_millis(20));
+        }
+    }
+}
+impl Drop for HeavyGuard {
+    fn drop(&mut self) {
+        *HEAVY.lock().unwrap() -= self.0;
+    }
+}
+fn nest_params(it: &Item) -> Option<(usize, usize)> {
+    let rest = it.origin.strip_prefix("nest")?;
+    let (k, d) = rest.split_once('x')?;
+    Some((k.parse().ok()?, d.parse().ok()?))
+}
+fn heavy_weight(it: &Item) -> usize {
+    match nest_params(it) {
+        Some((2, d)) if d >= 40 && it.fix => 4,
+        Some((2, d)) if d >= 24 => 2,
+        Some((3, d)) if d >= 40 => 2,
+        Some((_, d)) if d >= 32 => 1,
+        _ => {
+            if it.sql.len() > 6000 {
+                1
+            } else {
+                0
+            }
+        }
+    }
+}
+
+fn spawn_worker() -> Worker {
+    let exe = std::env::current_exe().expect("current_exe");
+    // address-space limit: a runaway allocation aborts the worker instead of endangering the machine
+    let limit_kb: u64 = std::env::var("SQV_C03_VMEM_KB").ok().and_then(|s| s.parse().ok()).unwrap_or(16_000_000);
+    let mut child = Command::new("sh")
+        .arg("-c")
+        .arg(format!("ulimit -v {}; exec \"$0\" c03 --worker", limit_kb))
+        .arg(exe)
+        .stdin(Stdio::piped())
+        .stdout(Stdio::piped())
+        .stderr(Stdio::null())
+        .spawn()
+        .expect("spawn worker");
+    let stdin = child.stdin.take().unwrap();
+    let stdout = child.stdout.take().unwrap();
+    let (tx, rx) = channel();
+    std::thread::spawn(move || {
+        for line in BufReader::new(stdout).lines() {
+            let Ok(line) = line else { break };
+            if tx.send(line).is_err() {
+                break;
+            }
+        }
+    });
+    Worker { child, stdin, rx }
+}
+
+enum Outcome {
+    Done(Value),
+    Died(String),
+    Timeout,
+}
+
+fn run_in_child(w: &mut Option<Worker>, it: &Item, timeout: Duration) -> Outcome {
+    if w.is_none() {
+        *w = Some(spawn_worker());
+    }
+    let wk = w.as_mut().unwrap();
+    let line = json!({"dialect":it.dialect,"rules":it.rules,"fix":it.fix,"sql":it.sql}).to_string();
+    if writeln!(wk.stdin, "{}", line).and_then(|_| wk.stdin.flush()).is_err() {
+        let st = wk.child.wait().map(|s| format!("{}", s)).unwrap_or_else(|_| "?".into());
+        *w = None;
+        return Outcome::Died(st);
+    }
+    match wk.rx.recv_timeout(timeout) {
+        Ok(l) => match serde_json::from_str::<Value>(&l) {
+            Ok(v) => {
+                // sqruff keeps memory of earlier lints alive (measured: ~2 GB per deeply nested file);
+                // that is not a crash of this run, so start a fresh worker rather than let it add up
+                if v["rss_mb"].as_u64().unwrap_or(0) > 400 {
+                    drop(w.take());
+                }
+                Outcome::Done(v)
+            }
+            Err(_) => Outcome::Died(format!("garbled worker output: {}", trunc(&l, 80))),
+        },
+        Err(RecvTimeoutError::Timeout) => {
+            let _ = wk.child.kill();
+            let _ = wk.child.wait();
+            *w = None;
+            Outcome::Timeout
+        }
+        Err(RecvTimeoutError::Disconnected) => {
+            let st = wk.child.wait().map(|s| format!("{}", s)).unwrap_or_else(|_| "?".into());
+            *w = None;
+            Outcome::Died(st)
+        }
+    }
+}
+
+fn djb(s: &str) -> String {
+    let mut h: u64 = 0xcbf29ce484222325;
+    for b in s.as_bytes() {
+        h ^= *b as u64;
+        h = h.wrapping_mul(0x100000001b3);
+    }
+    format!("{:012x}", h & 0xffff_ffff_ffff)
+}
+
+fn observe(w: &mut Option<Worker>, it: &Item, timeout: Duration, last_try: bool, buf: &mut Buf) {
+    buf.count(if last_try { "runs_retried" } else { "runs" }, 1);
+    if !last_try {
+        buf.count(if it.fix { "runs_fix" } else { "runs_lint" }, 1);
+    }
+    let wt = heavy_weight(it);
+    let _guard = if wt > 0 { Some(HeavyGuard::acquire(wt)) } else { None };
+    let outcome = run_in_child(w, it, timeout);
+    drop(_guard);
+    match outcome {
+        Outcome::Done(v) => {
+            buf.lines.push(json!({"t":"hwm","mb":v["hwm_mb"].as_u64().unwrap_or(0)}));
+            if v["r"] == "ok" {
+                buf.direct(it.cls, true, "", "", Value::Null);
+                if v["unexp"].as_u64().unwrap_or(0) > 0 {
+                    buf.count("runs_with_rule_panic_reported_as_violation", 1);
+                }
+                if v["parse_errs"].as_u64().unwrap_or(0) > 0 {
+                    buf.count("runs_with_parse_error_violation", 1);
+                }
+                if v["changed"].as_bool().unwrap_or(false) {
+                    buf.count("runs_fix_changed_text", 1);
+                }
+                let ms = v["ms"].as_u64().unwrap_or(0);
+                if ms > 5000 {
+                    buf.count("runs_over_5s", 1);
+                }
+                buf.lines.push(json!({"t":"ms","ms":ms,"len":it.sql.len()}));
+            } else {
+                let key = v["key"].as_str().unwrap_or("panic@?").to_string();
+                let msg = format!("uncaught panic at {} ({}): {}", v["loc"].as_str().unwrap_or("?"), v["stage"].as_str().unwrap_or("?"), v["msg"].as_str().unwrap_or(""));
+                buf.count("uncaught_panics", 1);
+                buf.direct(it.cls, false, &key, &msg, it.input());
+            }
+        }
+        Outcome::Died(st) if !last_try && st.contains("signal: 9") => {
+            // SIGKILL is never sqruff's own abort (that would be SIGABRT/SIGSEGV): the kernel's OOM killer
+            // on a shared machine. Retry alone at the end; a second kill is reported.
+            buf.count("sigkill_first_attempt", 1);
+            buf.lines.push(json!({"t":"retry"}));
+        }
+        Outcome::Died(st) => {
+            buf.count("aborts", 1);
+            // an abort whose cause is a dangling grammar reference cannot be told apart here by message;
+            // key by exit status + dialect + first word so that each abort class is distinct
+            let first = it.sql.split_whitespace().take(2).collect::<Vec<_>>().join("_");
+            let key = format!("abort:{}:{}:{}", st.replace(' ', "_"), it.dialect, djb(&first));
+            buf.direct(it.cls, false, &key, &format!("worker process died ({})", st), it.input());
+        }
+        Outcome::Timeout if !last_try => {
+            // The machine is shared: retry alone, later, with a longer limit before calling it non-termination.
+            buf.count("timeouts_first_attempt", 1);
+            buf.lines.push(json!({"t":"retry"}));
+        }
+        Outcome::Timeout => {
+            buf.count("timeouts", 1);
+            let key = format!("timeout:{}:{}", it.dialect, djb(&it.sql));
+            buf.direct(it.cls, false, &key, &format!("no result after {} s", timeout.as_secs()), it.input());
+        }
+    }
+}
+
+// ---------------------------------------------------------------- generators
+fn token_bounds(dialect: &str, sql: &str, linters: &mut std::collections::HashMap<String, Linter>) -> Vec<(usize, usize)> {
+    let l = linters.entry(dialect.to_string()).or_insert_with(|| mk_linter(dialect, "core"));
+    let tables = Tables::default();
+    let r = catch(|| l.config().get_dialect().lexer().lex(&tables, StringOrTemplate::String(sql)));
+    let mut out = vec![];
+    if let Ok(Ok((toks, _))) = r {
+        let mut pos = 0usize;
+        for t in toks {
+            let n = t.raw().len();
+            if n > 0 && pos + n <= sql.len() {
+                out.push((pos, pos + n));
+            }
+            pos += n;
+        }
+    }
+    out
+}
+
+const JUNK: &[&str] = &[
+    "@", "$", "\\", "'", "\"", "`", "é", "日本", "\u{0}", "\u{7}", "\t", "\r", "\r\n", "/*", "*/", "--", "#", "{{", "}}", "{%", "%}", "?", ":x", "$1", "[", "]", "(", ")", ";", ",", ".", "..", "::", "||",
+    "'unterminated", "\"unterminated", "/* unterminated", "\u{feff}", "\u{a0}", "\u{2028}", "𝒳", "0x", "1e", "1.2.3", "e'", "$$", "$tag$",
+];
+const STMT_KW: &[&str] = &[
+    "SELECT", "INSERT", "UPDATE", "DELETE", "CREATE", "ALTER", "DROP", "MERGE", "WITH", "SET", "USE", "GRANT", "REVOKE", "TRUNCATE", "EXPLAIN", "DESCRIBE", "BEGIN", "COMMIT", "ROLLBACK", "DECLARE",
+    "CALL", "COPY", "SHOW", "VALUES", "TABLE", "FROM", "WHERE", "GROUP BY", "ORDER BY", "JOIN", "ON", "AS", "CASE", "WHEN", "END", "UNION", "OVER", "PARTITION BY", "INTO", "IF", "NOT", "EXISTS",
+];
+const SQLFLUFF_LINES: &[&str] = &[
+    "-- sqlfluff:dialect:ansi",
+    "-- sqlfluff:rules:LT01",
+    "-- sqlfluff:exclude_rules:CP01",
+    "-- sqlfluff",
+    "-- sqlfluff:",
+    "-- sqlfluff:max_line_length:120",
+    "-- sqlfluff:indentation:tab_space_size:2",
+    "-- sqlfluff:templater:raw",
+    "-- sqlfluffxyz",
+    "-- sqlfluff:rules:capitalisation.keywords:capitalisation_policy:upper",
+];
+
+fn nested(depth: usize, kind: usize) -> String {
+    match kind {
+        0 => format!("SELECT {}1{} FROM t\n", "(".repeat(depth), ")".repeat(depth)),
+        1 => format!("SELECT {}x{} FROM t\n", "f(".repeat(depth), ")".repeat(depth)),
+        2 => {
+            let mut s = String::from("SELECT a FROM t");
+            for i in 0..depth {
+                s = format!("SELECT a FROM ({}) AS s{}", s, i);
+            }
+            s + "\n"
+        }
+        3 => format!("SELECT {}1{} FROM t\n", "CASE WHEN a THEN ".repeat(depth), " END".repeat(depth)),
+        4 => format!("SELECT {}\n", "(".repeat(depth)),
+        5 => format!("SELECT 1 {}\n", ")".repeat(depth)),
+        6 => format!("SELECT a FROM t WHERE {}a = 1{}\n", "(".repeat(depth), ")".repeat(depth)),
+        7 => format!("SELECT {}1{}\n", "[".repeat(depth), "]".repeat(depth)),
+        _ => format!("SELECT a{} FROM t\n", "[1]".repeat(depth)),
+    }
+}
+
+fn corrupt(rng: &mut Rng, sql: &str, toks: &[(usize, usize)], keywords: &[String]) -> String {
+    if toks.is_empty() {
+        return format!("{}{}", JUNK[rng.below(JUNK.len())], sql);
+    }
+    // work on a vector of token strings
+    let mut v: Vec<String> = toks.iter().map(|(a, b)| sql[*a..*b].to_string()).collect();
+    let n_edits = rng.range(1, 5);
+    for _ in 0..n_edits {
+        if v.is_empty() {
+            break;
+        }
+        let i = rng.below(v.len());
+        match rng.below(8) {
+            0 => {
+                v.remove(i);
+            }
+            1 => {
+                let x = v[i].clone();
+                v.insert(i, x);
+            }
+            2 => {
+                let j = rng.below(v.len());
+                v.swap(i, j);
+            }
+            3 => v.insert(i, JUNK[rng.below(JUNK.len())].to_string()),
+            4 => v.insert(i, format!(" {} ", STMT_KW[rng.below(STMT_KW.len())])),
+            5 => {
+                if !keywords.is_empty() {
+                    v.insert(i, format!(" {} ", keywords[rng.below(keywords.len())]))
+                }
+            }
+            6 => v.truncate(i),
+            _ => v.insert(i, format!("\n{}\n", SQLFLUFF_LINES[rng.below(SQLFLUFF_LINES.len())])),
+        }
+    }
+    v.concat()
+}
+
+pub fn dialect_keywords(dialect: &str) -> Vec<String> {
+    let l = mk_linter(dialect, "core");
+    let d = l.config().get_dialect();
+    let mut ks: Vec<String> = d.sets("reserved_keywords").into_iter().chain(d.sets("unreserved_keywords")).map(|s| s.to_string()).collect();
+    ks.sort();
+    ks.dedup();
+    ks
+}
+
+fn build_items(args: &Args, out: &mut Out) -> Vec<Item> {
+    let thorough = args.thorough();
+    let mut rng = Rng::new(args.seed);
+    let mut items: Vec<Item> = vec![];
+    let corpus = corpus();
+    let mut lex_linters = std::collections::HashMap::new();
+    let mut push = |cls: &'static str, dialect: &str, rules: &str, fix: bool, sql: String, origin: String| {
+        // the property quantifies over inputs up to 20 kB
+        if sql.len() <= 20 * 1024 {
+            items.push(Item { cls, dialect: dialect.to_string(), rules: rules.to_string(), fix, sql, origin });
+        }
+    };
+
+    // 0. regression corpus (minimised earlier failures) — runs first
+    for d in DIALECTS {
+        push("regression", d, "all", true, "-- sqlfluff:dialect:ansi\nSELECT 1\n".into(), "inline-config".into());
+        push("regression", d, "core", false, "SELECT 1\n-- sqlfluff:rules:LT01\n".into(), "inline-config".into());
+        push("regression", d, "all", true, "CREATE TABLE t (a int)\n".into(), "create-table".into());
+        push("regression", d, "all", true, "".into(), "empty".into());
+        push("regression", d, "all", true, "\n".into(), "newline".into());
+        push("regression", d, "all", true, "SELECT @x, b FROM t\n".into(), "unlexable".into());
+        push("regression", d, "CV06,CV07", true, "(\nSELECT 1\n);\n".into(), "create-after-at-offset-0".into());
+        push("regression", d, "convention", false, "()".into(), "cv07-empty-brackets".into());
+        push("regression", d, "all", true, "SELECT 1;\n()\n".into(), "cv07-empty-brackets".into());
+    }
+
+    // 1. corpus under its own dialect: all+fix for every file; other selections/modes rotate
+    for (i, f) in corpus.iter().enumerate() {
+        push("corpus", &f.dialect, "all", true, f.text.clone(), f.name.clone());
+        let nsel = if thorough { SELECTIONS.len() } else { 1 };
+        for k in 0..nsel {
+            let sel = SELECTIONS[(i + k) % SELECTIONS.len()];
+            push("corpus", &f.dialect, sel, (i + k) % 2 == 0, f.text.clone(), f.name.clone());
+            if thorough {
+                push("corpus", &f.dialect, sel, (i + k) % 2 == 1, f.text.clone(), f.name.clone());
+            }
+        }
+    }
+    // 2. cross-dialect corpus
+    let n_cross = if thorough { 12 } else { 1 };
+    for f in corpus.iter() {
+        for _ in 0..n_cross {
+            let d = DIALECTS[rng.below(DIALECTS.len())];
+            if d == f.dialect {
+                continue;
+            }
+            let sel = if rng.chance(1, 2) { "all" } else { SELECTIONS[rng.below(SELECTIONS.len())] };
+            push("cross-dialect", d, sel, rng.chance(2, 3), f.text.clone(), f.name.clone());
+        }
+    }
+    // 3. rule fixture snippets (ansi unless the file name names a dialect)
+    let snippets = rule_snippets();
+    for (i, (name, text)) in snippets.iter().enumerate() {
+        if !thorough && i % 2 == 1 {
+            continue;
+        }
+        let d = if thorough { DIALECTS[i % DIALECTS.len()] } else { "ansi" };
+        push("rule-snippets", d, "all", true, text.clone(), name.clone());
+    }
+    if args.extra.iter().any(|a| a == "--subset") {
+        // checked-profile pass of the quick tier: regression, corpus (own dialect), rule fixtures
+        return items;
+    }
+    // 4. exhaustive single-token deletions / duplications on small files
+    let mut small: Vec<&CorpusFile> = corpus.iter().filter(|f| f.text.len() < 400).collect();
+    rng.shuffle(&mut small);
+    let mut per_dialect: std::collections::HashMap<String, usize> = Default::default();
+    let cap = if thorough { 12 } else { 2 };
+    let mut n_small_files = 0;
+    for f in small {
+        let c = per_dialect.entry(f.dialect.clone()).or_default();
+        if *c >= cap {
+            continue;
+        }
+        let toks = token_bounds(&f.dialect, &f.text, &mut lex_linters);
+        if toks.is_empty() || toks.len() > 40 {
+            continue;
+        }
+        *c += 1;
+        n_small_files += 1;
+        for (k, (a, b)) in toks.iter().enumerate() {
+            let del = format!("{}{}", &f.text[..*a], &f.text[*b..]);
+            let dup = format!("{}{}{}", &f.text[..*b], &f.text[*a..*b], &f.text[*b..]);
+            let sel = if k % 3 == 0 { "all" } else { SELECTIONS[k % SELECTIONS.len()] };
+            push("token-delete", &f.dialect, sel, true, del, format!("{}#del{}", f.name, k));
+            push("token-duplicate", &f.dialect, sel, true, dup, format!("{}#dup{}", f.name, k));
+        }
+    }
+    out.stat(json!({"small_files_exhaustively_mutated": n_small_files}));
+    // 5. seeded multi-token corruptions with junk characters / keywords / config lines
+    let n_corrupt = if thorough { 12000 } else { 1500 };
+    let mut kw_cache: std::collections::HashMap<String, Vec<String>> = Default::default();
+    for d in DIALECTS {
+        kw_cache.insert(d.to_string(), dialect_keywords(d));
+    }
+    let mid: Vec<&CorpusFile> = corpus.iter().filter(|f| f.text.len() < 3000).collect();
+    for _ in 0..n_corrupt {
+        let f = mid[rng.below(mid.len())];
+        let d = if rng.chance(4, 5) { f.dialect.as_str() } else { DIALECTS[rng.below(DIALECTS.len())] };
+        let toks = token_bounds(&f.dialect, &f.text, &mut lex_linters);
+        let sql = corrupt(&mut rng, &f.text, &toks, &kw_cache[d]);
+        let cls = if sql.contains("-- sqlfluff") { "corrupt+config-line" } else { "corrupt" };
+        let sel = if rng.chance(1, 2) { "all" } else { SELECTIONS[rng.below(SELECTIONS.len())] };
+        push(cls, d, sel, rng.chance(3, 4), sql, f.name.clone());
+    }
+    // 6. every keyword of each dialect as statement opener
+    let mut n_kw = 0;
+    for d in DIALECTS {
+        let ks = &kw_cache[d];
+        for (i, k) in ks.iter().enumerate() {
+            n_kw += 1;
+            let variants: Vec<String> = vec![
+                format!("{} t (a int)\n", k),
+                format!("{};\n", k),
+                format!("{} TABLE t (a int);\n", k),
+                format!("SELECT {} FROM t\n", k),
+                format!("CREATE {} t AS SELECT 1\n", k),
+                format!("{} a, b FROM t WHERE {} c\n", k, k),
+            ];
+            if thorough {
+                for v in variants {
+                    push("keyword", d, "all", true, v, k.clone());
+                }
+            } else {
+                let v = variants[i % variants.len()].clone();
+                push("keyword", d, "all", i % 2 == 0, v, k.clone());
+            }
+        }
+    }
+    out.stat(json!({"dialect_keywords": n_kw}));
+    // 7. '-- sqlfluff' lines at every line position of small files
+    for d in DIALECTS {
+        for (i, l) in SQLFLUFF_LINES.iter().enumerate() {
+            let base = ["SELECT a FROM t\n", "SELECT a,\n    b\nFROM t\nWHERE a = 1\n", ""][i % 3];
+            let lines: Vec<&str> = base.lines().collect();
+            for at in 0..=lines.len() {
+                let mut v: Vec<String> = lines.iter().map(|s| s.to_string()).collect();
+                v.insert(at, l.to_string());
+                let sql = v.join("\n") + if i % 2 == 0 { "\n" } else { "" };
+                push("config-line", d, SELECTIONS[(i + at) % SELECTIONS.len()], at % 2 == 0, sql, l.to_string());
+            }
+        }
+    }
+    // 8. junk stream
+    for d in DIALECTS {
+        for (i, j) in JUNK.iter().enumerate() {
+            push("junk", d, "all", true, j.to_string(), "junk".into());
+            push("junk", d, "all", i % 2 == 0, format!("SELECT a{} FROM t\n", j), "junk".into());
+            if thorough {
+                push("junk", d, "all", true, format!("{}SELECT a FROM t", j), "junk".into());
+                push("junk", d, "core", false, format!("SELECT a FROM t {}", j), "junk".into());
+                push("junk", d, "layout", true, format!("SELECT a FROM t\n{}\n", j), "junk".into());
+            }
+        }
+        for s in ["   ", "\n\n\n", "\t", ";", ";;", "SELECT", "select\r\n1\r\n", "SELECT 1 -- c", "/**/", "SELECT\u{a0}1"] {
+            push("junk", d, "all", true, s.to_string(), "tiny".into());
+        }
+    }
+    // 9. bracket nesting to 64
+    let depths: Vec<usize> = if thorough { (1..=64).collect() } else { vec![1, 2, 3, 8, 16, 32, 48, 64] };
+    for (di, d) in DIALECTS.iter().enumerate() {
+        for &depth in &depths {
+            for kind in 0..9 {
+                if !thorough && (kind + depth + di) % 3 != 0 && !(*d == "ansi" && depth == 64) {
+                    continue;
+                }
+                // nested subqueries / CASEs are cubic in time and memory (64 subqueries in fix mode: 11 GB, 10 s):
+                // thorough runs them at every 8th depth
+                if thorough && (kind == 2 || kind == 3) && depth > 8 && depth % 8 != 0 {
+                    continue;
+                }
+                // deep nested subqueries in fix mode: ansi only in quick tier, every 4th dialect in thorough
+                // (the construct is the same ANSI grammar in every dialect); the others are linted
+                let fix = !(kind == 2 && depth >= 40) || *d == "ansi" || (thorough && di % 4 == 0);
+                push("nesting", d, if kind % 2 == 0 { "all" } else { "layout" }, fix, nested(depth, kind), format!("nest{}x{}", kind, depth));
+            }
+        }
+    }
+    // 10. large files up to 20 kB (concatenated corpus files of the dialect)
+    let n_large = if thorough { 6 } else { 1 };
+    for d in DIALECTS {
+        let fs: Vec<&CorpusFile> = corpus.iter().filter(|f| f.dialect == d).collect();
+        if fs.is_empty() {
+            continue;
+        }
+        for k in 0..n_large {
+            let mut s = String::new();
+            let mut tries = 0;
+            while s.len() < 19 * 1024 && tries < 400 {
+                tries += 1;
+                let f = fs[rng.below(fs.len())];
+                if s.len() + f.text.len() + 2 > 20 * 1024 {
+                    continue;
+                }
+                s.push_str(f.text.trim_end());
+                if !f.text.trim_end().ends_with(';') {
+                    s.push(';');
+                }
+                s.push('\n');
+            }
+            push("large", d, if k % 2 == 0 { "all" } else { "core" }, k % 3 != 2, s, format!("large{}", k));
+        }
+        // one long single line and one file of many tiny statements
+        push("large", d, "all", true, format!("SELECT {} FROM t\n", (0..2500).map(|i| format!("c{}", i)).collect::<Vec<_>>().join(", ")), "wide".into());
+        push("large", d, "layout", true, "select 1;\n".repeat(1900), "many".into());
+    }
+    items
+}
+
+// ---------------------------------------------------------------- main
+pub fn main(args: &Args) {
+    if args.extra.iter().any(|a| a == "--worker") {
+        worker_main();
+        return;
+    }
+    silence_panics();
+    let mut out = Out::new(&args.out);
+    let timeout = Duration::from_secs(std::env::var("SQV_C03_TIMEOUT").ok().and_then(|s| s.parse().ok()).unwrap_or(60));
+
+    let items: Vec<Item> = if let Some(path) = args.flag("--replay-input") {
+        let v: Value = serde_json::from_str(&std::fs::read_to_string(path).unwrap()).unwrap();
+        let v = if v.get("input").is_some() { v["input"].clone() } else { v };
+        if v.get("kernel").is_some() {
+            c03k::replay(&v, &mut out);
+            out.finish();
+            return;
+        }
+        vec![Item {
+            cls: "replay",
+            dialect: v["dialect"].as_str().unwrap_or("ansi").into(),
+            rules: v["rules"].as_str().unwrap_or("all").into(),
+            fix: v["fix"].as_bool().unwrap_or(true),
+            sql: v["sql"].as_str().unwrap_or("").into(),
+            origin: "replay".into(),
+        }]
+    } else {
+        // kernel correspondence cases first (in-process; cheap)
+        if !args.extra.iter().any(|a| a == "--subset") {
+            c03k::kernel_cases(args, &mut out);
+        }
+        build_items(args, &mut out)
+    };
+
+    // distribution of the inputs
+    let mut sizes = [0usize; 6];
+    for it in &items {
+        let b = match it.sql.len() {
+            0..=15 => 0,
+            16..=127 => 1,
+            128..=1023 => 2,
+            1024..=4095 => 3,
+            4096..=12287 => 4,
+            _ => 5,
+        };
+        sizes[b] += 1;
+    }
+    out.stat(json!({"items": items.len(), "size_hist_bytes": {"<16":sizes[0],"<128":sizes[1],"<1k":sizes[2],"<4k":sizes[3],"<12k":sizes[4],"<=20k":sizes[5]},
+                    "timeout_s": timeout.as_secs()}));
+
+    // Children are single-threaded; one manager thread per child. Big items first so the tail is short.
+    let mut order: Vec<usize> = (0..items.len()).collect();
+    order.sort_by_key(|&i| std::cmp::Reverse(if items[i].cls == "regression" { usize::MAX } else { items[i].sql.len() }));
+    let ordered: Vec<&Item> = order.iter().map(|&i| &items[i]).collect();
+    let ms_all: Mutex<Vec<u64>> = Mutex::new(vec![]);
+    let retry: Mutex<Vec<Item>> = Mutex::new(vec![]);
+    let hwm: Mutex<u64> = Mutex::new(0);
+    par_run(
+        &mut out,
+        &ordered,
+        || None::<Worker>,
+        |w, it, buf| {
+            observe(w, it, timeout, false, buf);
+            // strip the timing records into the shared vector
+            let mut keep = vec![];
+            for l in std::mem::take(&mut buf.lines) {
+                if l["t"] == "ms" {
+                    ms_all.lock().unwrap().push(l["ms"].as_u64().unwrap_or(0));
+                } else if l["t"] == "hwm" {
+                    let mut g = hwm.lock().unwrap();
+                    *g = (*g).max(l["mb"].as_u64().unwrap_or(0));
+                } else if l["t"] == "retry" {
+                    retry.lock().unwrap().push((*it).clone());
+                } else {
+                    keep.push(l);
+                }
+            }
+            buf.lines = keep;
+        },
+    );
+    // second chance for timeouts: one at a time, five times the limit
+    let retry = retry.into_inner().unwrap();
+    {
+        let mut w = None::<Worker>;
+        for it in &retry {
+            let mut buf = Buf::default();
+            observe(&mut w, it, timeout * 5, true, &mut buf);
+            buf.lines.retain(|l| l["t"] != "ms" && l["t"] != "hwm");
+            out.absorb(buf);
+        }
+    }
+    out.stat(json!({"worker_peak_rss_mb": *hwm.lock().unwrap()}));
+    let mut ms = ms_all.into_inner().unwrap();
+    ms.sort();
+    if !ms.is_empty() {
+        out.stat(json!({"lint_ms": {"p50": ms[ms.len()/2], "p99": ms[ms.len()*99/100], "max": ms[ms.len()-1], "total_s": ms.iter().sum::<u64>()/1000}}));
+    }
+    out.finish();
 }
